@@ -1944,7 +1944,7 @@ class GramStack(Stack):
             raw, ha = self.handler.receive()  # if no data the duple is (b'', None)
         except socket.error as ex:
             # ex.args[0] always ex.errno for compat
-            if (ex.args[0] == (errno.ECONNREFUSED,
+            if (ex.args[0] in (errno.ECONNREFUSED,
                                errno.ECONNRESET,
                                errno.ENETRESET,
                                errno.ENETUNREACH,
